@@ -110,14 +110,19 @@ theorem C11_trained (lvl : Nat → Nat → Nat → Nat) (alphabetSize ngram minL
   obtain ⟨tb, h1, _, h3⟩ := C11_guesser_from_files t hwf target
   exact ⟨tb, h1, h3⟩
 
-/-- **the clamp of `_calc_level`, regenerated from the source**: after taking the floor of the logarithm the function ends with
-`if level > max_level: level = max_level elif level < 0: level = 0; return level`, `max_level` defaulting to 10 - so whatever the
-logarithm and the floor return (they do not reduce in the kernel), the level is within `0..10` (`lvlOf raw 10`) -/
+/-- **the clamp of `_calc_level`, regenerated from the source**: the statements after the one that takes the floor of the logarithm
+are translated, whatever their shape (`if` / `elif` / early `return`s), into `Generated.OmenFacts.calcLevelClamp`; with `max_level` at
+its default 10 that function is the model's `clampLevel` - so whatever the logarithm and the floor return (they do not reduce in the
+kernel), the level is within `0..10` (`lvlOf raw 10`) -/
 theorem C11_calc_level_clamps :
-    Generated.OmenFacts.calcLevelTail = ["if level > max_level: level = max_level elif level < 0: level = 0", "return level"] ∧
     Generated.OmenFacts.calcLevelMaxDefault = "10" ∧
-    ∀ (raw : Nat → Nat → Nat → Int) (a b c : Nat), lvlOf raw 10 a b c ≤ 10 :=
-  ⟨by decide, by decide, fun raw a b c => lvlOf_le raw 10 a b c⟩
+    (∀ level : Int, Generated.OmenFacts.calcLevelClamp level 10 = (clampLevel level 10 : Int)) ∧
+    ∀ (raw : Nat → Nat → Nat → Int) (a b c : Nat), lvlOf raw 10 a b c ≤ 10 := by
+  refine ⟨by decide, ?_, fun raw a b c => lvlOf_le raw 10 a b c⟩
+  intro level
+  simp only [Generated.OmenFacts.calcLevelClamp, clampLevel]
+  repeat' split
+  all_goals omega
 
 /-- `C11_trained` for **every** value the logarithm could return: no hypothesis at all besides the n-gram size ≥ 2 -/
 theorem C11_trained_any_smoothing (raw : Nat → Nat → Nat → Int) (alphabetSize ngram minLength maxLength : Nat)
